@@ -199,9 +199,21 @@ def main(pid, run):
     except MachineryError as e:
         print("MACHINERY-FAILURE property=%s: %s" % (pid, e))
         rc = 2
-    except Exception:
-        traceback.print_exc()
-        print("MACHINERY-FAILURE property=%s: harness exception" % pid)
-        rc = 2
+    except Exception as e:
+        tb = traceback.extract_tb(e.__traceback__)
+        lib = os.path.realpath(os.path.join(REPO, "baize")) + os.sep
+        if tb and os.path.realpath(tb[-1].filename).startswith(lib):
+            # the library itself raised out of a call the harness makes with arguments inside the property's scope (building an
+            # application, a response, a mapping ...): on the unchanged tree this never happens; it is a verdict, not a machinery failure
+            where = "%s:%d" % (os.path.relpath(tb[-1].filename, REPO), tb[-1].lineno)
+            caller = next(("%s:%d" % (os.path.basename(f.filename), f.lineno) for f in reversed(tb) if "/harness/" in f.filename), "?")
+            ctx.violation({"phase": "a call the check makes while preparing or driving its scenarios", "harness_site": caller},
+                          "the library accepts the call", "%s: %s at %s" % (type(e).__name__, str(e)[:200], where),
+                          "the library raised %s at %s out of a plain call of the check (%s)" % (type(e).__name__, where, caller))
+            rc = ctx.finish()
+        else:
+            traceback.print_exc()
+            print("MACHINERY-FAILURE property=%s: harness exception" % pid)
+            rc = 2
     sys.stdout.flush()
     return rc
